@@ -184,8 +184,39 @@ class TwoWaiters(Obligation):
         return out
 
 
+class FromCreate(Obligation):
+    """the control as its constructor makes it (no field named): the limits in force are the ones that were asked for"""
+    id = 'C19.e-history-from-create'
+    desc = ('flow_control::create(max_bytes, max_messages), inc(b, m), has_available_space(), dec(b2, m2), has_available_space(): '
+            'space is reported exactly when bytes < max_bytes and messages < max_messages, for the limits given to create')
+    bounds = {'limits': 'all u64', 'counts': '< 2^62 (no wrap)', 'history': 'create, inc, query, dec, query'}
+
+    def body(self, ip, p):
+        ctx = ip.ctx
+        mb, mm, b, m, b2, m2 = [p.fresh(n) for n in ('max_bytes', 'max_messages', 'inc_bytes', 'inc_msgs', 'dec_bytes', 'dec_msgs')]
+        p.assume(z3.And(mb >= 0, mb <= U64, mm >= 0, mm <= U64, b >= 0, b < (1 << 62), m >= 0, m < (1 << 62), b2 >= 0, b2 <= b, m2 >= 0, m2 <= m))
+        fc = run_to_end(ip.call_fn(ctx.free_fn('flow_control::create'), [S(mb, 'u64'), S(mm, 'u64')]))
+        cell = Cell(fc, 'flow-control')
+        call = lambda name, *a: run_to_end(ip.call_fn(ctx.fn('FlowControl', name), [Ref(Loc(cell))] + list(a)))
+        call('inc', S(b, 'u64'), S(m, 'u64'))
+        r1 = call('has_available_space')
+        call('dec', S(b2, 'u64'), S(m2, 'u64'))
+        r2 = call('has_available_space')
+        return {'mb': mb, 'mm': mm, 'b': b, 'm': m, 'b2': b2, 'm2': m2, 'r1': r1, 'r2': r2}
+
+    def post(self, ip, p, res):
+        g = res
+        return [Claim('after inc: space iff both counts are below the limits given to create', g['r1'].t == z3.And(g['b'] < g['mb'], g['m'] < g['mm'])),
+                Claim('after dec: space iff both counts are below the limits given to create', g['r2'].t == z3.And(g['b'] - g['b2'] < g['mb'], g['m'] - g['m2'] < g['mm'])),
+                Cover('space only after the dec', z3.And(z3.Not(g['r1'].t), g['r2'].t)),
+                Cover('message limit above the byte limit', g['mm'] > g['mb'])]
+
+    def model_info(self, p, m, res):
+        return {k: model_value(m, v) for k, v in res.items() if k not in ('r1', 'r2')} if res else {}
+
+
 def obligations(ctx, cfg):
-    obs = [HasSpace(), Race(ctx, ['dec']), Race(ctx, ['inc']), TwoWaiters()]
+    obs = [HasSpace(), Race(ctx, ['dec']), Race(ctx, ['inc']), TwoWaiters(), FromCreate()]
     if cfg['tier'] == 'thorough':
         obs.append(Race(ctx, ['dec', 'inc'], atomic=(1,)))
         obs.append(Race(ctx, ['inc', 'dec'], atomic=(1,)))
